@@ -135,7 +135,7 @@ def cmd_run(args):
         if not os.path.exists(os.path.join(d, "meta.json")):
             continue
         meta = json.load(open(os.path.join(d, "meta.json")))
-        props = ALL if args.all_props else [meta["property"]]
+        props = ALL if args.all_props else (args.prop.split(",") if args.prop else [meta["property"]])
         with Worktree() as tree:
             r = sh(["git", "-C", tree, "apply", "--whitespace=nowarn", os.path.join(d, "patch.diff")])
             if r.returncode:
@@ -167,6 +167,7 @@ def main():
     b.add_argument("--tier", default="quick")
     b.add_argument("--seed", default="1")
     b.add_argument("--all-props", action="store_true")
+    b.add_argument("--prop", help="run these checks (comma separated) instead of the seed's own")
     args = ap.parse_args()
     return cmd_import(args) if args.cmd == "import" else cmd_run(args)
 
